@@ -7,7 +7,7 @@ from hypothesis import strategies as st
 from ECAgent.Core import Agent, ComponentNotFoundError, Model
 from ECAgent.Environments import DiscreteWorld, GridWorld, LineWorld, SpaceWorld, PositionComponent
 from vf.engine import Violation, InvalidCase
-from vf.fixtures import check, expect_raises, sized_lists
+from vf.fixtures import check, expect_raises, sized_lists, wone_of
 from vf.props.c04 import oob_error_ok
 
 PROPERTY = "C08"
@@ -212,7 +212,7 @@ def strategy(tier):
             if exact:
                 ext = [draw(st.sampled_from([0, 8, 12, 40, 64, 100, 512])) for _ in range(3)]
             else:
-                ext = [draw(st.one_of(st.just(0.0), st.floats(1.0, 1000.0, allow_nan=False))) for _ in range(3)]
+                ext = [draw(wone_of(st.just(0.0), st.floats(1.0, 1000.0, allow_nan=False))) for _ in range(3)]
         elif kind == "discrete":
             ext = [draw(st.sampled_from([0, 1, 2, 3, 5, 7, 50])) for _ in range(3)]
         elif kind == "grid":
@@ -229,19 +229,19 @@ def strategy(tier):
         def coord(ax):
             if kind == "space" and not exact:
                 inside = st.floats(0.0, float(ee[ax]) or 1.0)
-                return draw(st.one_of(inside, inside, inside, inside, st.floats(-5.0, float(ee[ax]) + 5.0),
+                return draw(wone_of(inside, inside, inside, inside, st.floats(-5.0, float(ee[ax]) + 5.0),
                                       st.sampled_from([0.0, float(ee[ax])])))
             e = int(ee[ax]) * unit
             top = max(e - (0 if kind == "space" else unit), 0)
             inside = st.integers(0, top)
-            return draw(st.one_of(inside, inside, inside, inside, inside, st.sampled_from([0, top, top, max(top - unit, 0)]),
+            return draw(wone_of(inside, inside, inside, inside, inside, st.sampled_from([0, top, top, max(top - unit, 0)]),
                                   st.sampled_from([top + 1, -1, top + unit, -unit]), st.integers(-2 * unit, e + 2 * unit)))
 
         def delta(ax):
             if kind == "space" and not exact:
-                return draw(st.one_of(st.floats(-3.0, 3.0), st.floats(-1e12, 1e12, allow_nan=False), st.sampled_from([0.0, 1e9, -1e9])))
+                return draw(wone_of(st.floats(-3.0, 3.0), st.floats(-1e12, 1e12, allow_nan=False), st.sampled_from([0.0, 1e9, -1e9])))
             e = int(ee[ax]) * unit
-            return draw(st.one_of(st.integers(-3 * unit, 3 * unit), st.sampled_from([0, e, -e, 3 * e + unit, -(3 * e + unit), e - 1, 1 - e,
+            return draw(wone_of(st.integers(-3 * unit, 3 * unit), st.sampled_from([0, e, -e, 3 * e + unit, -(3 * e + unit), e - 1, 1 - e,
                                                                                       10 ** 9 * unit, -10 ** 9 * unit, 2 * e, -2 * e])))
         a = st.integers(0, 3)
         ops = []
